@@ -75,16 +75,9 @@ def lock_regions(fn, lock_names):
     return out
 
 
-def check(ctx, rep):
-    rep.rule('R03.a', 'App::update takes the model from a write guard of the core\'s model lock, App::view from a read guard', floor=2)
-    rep.rule('R03.b', 'inside a model write-lock region only expect/deref_mut and one update are called; the guard is released before anything else runs', floor=1)
-    rep.rule('R03.c', 'every carrier of the Event parameter is a FIFO channel endpoint or tabled; events move directly from receive to update', floor=5)
-    rep.rule('R03.d', 'no unsafe block or unsafe impl in the runtime crates', floor=4)
-    rep.rule('R03.e', 'no event value is dropped on a normal path (linear rule of C01, restricted to events)', floor=1)
-    core = ctx.crate('default', 'crux_core')
-    if core is None:
-        rep.missing('R03.a', 'crux_core facts')
-        return
+def check_model_lock(rep, rid_a, rid_b, core):
+    """App::update runs with the model taken from a (blocking) write guard of the core's model lock, alone in its lock region; App::view
+    with a guard of the same lock"""
     n_up = 0
     for f in core.built:
         if f.j.get('exp') or '::testing' in f.npath:
@@ -104,11 +97,11 @@ def check(ctx, rep):
                 any(x.kind == 'call' and call_matches(x.term, ['std::sync::poison::rwlock::RwLock::write']) and
                     'model' in c01.field_of_receiver(f, x.term['args'][0]) for x in origins(f, o.term['args'][0]))
                 for o in src)
-            rep.expect('R03.a', from_guard, key, '&mut model comes from deref_mut of self.model.write().expect(..)',
+            rep.expect(rid_a, from_guard, key, '&mut model comes from deref_mut of self.model.write().expect(..)',
                        '%s calls App::update with a model that does not come from a write guard of the model lock' % f.where(bb))
             inside = [r for r in regions_w if bb in r[3]]
             if not inside:
-                rep.bad('R03.b', key + '|region', 'update at %s is not inside a write-lock region' % f.where(bb))
+                rep.bad(rid_b, key + '|region', 'update at %s is not inside a write-lock region' % f.where(bb))
                 continue
             g, lb, gb, region, ends = inside[0]
             calls = [(b2, f.blocks[b2]['t']) for b2 in sorted(region) if f.blocks[b2]['t']['k'] == 'call' and b2 != gb]
@@ -118,7 +111,7 @@ def check(ctx, rep):
             n_updates = len([1 for b2, c in calls if call_matches(c, ['crux_core::App::update'])])
             outside_after = [b2 for b2, c in f.calls('CommandSpawner::spawn', 'QueuingExecutor::run_all', 'crux_core::core::Core::process')]
             reentry = [b2 for b2 in outside_after if b2 in region]
-            rep.expect('R03.b', not foreign and n_updates == 1 and not reentry and bool(ends), key + '|scope',
+            rep.expect(rid_b, not foreign and n_updates == 1 and not reentry and bool(ends), key + '|scope',
                        'region calls only deref_mut + one update; guard released at %s before spawn/run_all/process' % sorted(set(ends)),
                        '%s: while the model is write-locked the code calls %s%s' % (
                            f.path, foreign or 'update %d times' % n_updates,
@@ -131,10 +124,24 @@ def check(ctx, rep):
                 any(x.kind == 'call' and call_matches(x.term, ['std::sync::poison::rwlock::RwLock::read',
                                                               'std::sync::poison::rwlock::RwLock::write']) for x in origins(f, o.term['args'][0]))
                 for o in src)
-            rep.expect('R03.a', from_guard, key, '&model comes from a guard of the model lock',
+            rep.expect(rid_a, from_guard, key, '&model comes from a guard of the model lock',
                        '%s calls App::view with a model that does not come from a guard of the model lock' % f.where(bb))
     if n_up < 1:
-        rep.bad('R03.a', 'update-sites', 'no call of App::update found in crux_core (rule needs review)')
+        rep.bad(rid_a, 'update-sites', 'no call of App::update found in crux_core (rule needs review)')
+
+
+
+def check(ctx, rep):
+    rep.rule('R03.a', 'App::update takes the model from a write guard of the core\'s model lock, App::view from a read guard', floor=2)
+    rep.rule('R03.b', 'inside a model write-lock region only expect/deref_mut and one update are called; the guard is released before anything else runs', floor=1)
+    rep.rule('R03.c', 'every carrier of the Event parameter is a FIFO channel endpoint or tabled; events move directly from receive to update', floor=5)
+    rep.rule('R03.d', 'no unsafe block or unsafe impl in the runtime crates', floor=4)
+    rep.rule('R03.e', 'no event value is dropped on a normal path (linear rule of C01, restricted to events)', floor=1)
+    core = ctx.crate('default', 'crux_core')
+    if core is None:
+        rep.missing('R03.a', 'crux_core facts')
+        return
+    check_model_lock(rep, 'R03.a', 'R03.b', core)
 
     # R03.c carriers
     for p, adt in sorted(core.adts.items()):
@@ -195,6 +202,9 @@ def check(ctx, rep):
                        'not applied by this call, and a later shell event is applied before them')
         else:
             rep.bad('R03.f', 'shape', 'Core::process: expected one event receive and at least one run_all')
+    # R03.h: an event a task emits is applied by the call that ran the task: both executors run to quiescence (shared with C01 R01.e)
+    rep.rule('R03.h', 'both executor loops read both queues and return only after finding them empty again once any task has run', floor=5)
+    c01.check_executor_loops(rep, core, rid='R03.h')
     # R03.g: a hosted command's stream ends only when its event queue was found empty (shared with C07 R07.a / R07.e): an event a task
     # already emitted is never thrown away by the host that forwards the command's outputs
     from rules.props import c07
